@@ -74,6 +74,11 @@ def cfg_mul(tier, seed):
             ds = rng.sample(ds, 30) + [(0, 0)]
         for d in ds:
             out.append({'a': list(a), 'b': list(b), 'delta': list(d)})
+    # the offsets of the two operands held in different containers (lentil itself mixes lists and tuples)
+    for a, b in (((), ()), ((), (2, 2)), ((1, 1), ())):
+        for ca, cb in (('list', 'tuple'), ('tuple', 'list'), ('tuple', 'tuple'), ('ndarray', 'list')):
+            for d in ((0, 0), (1, 0)):
+                out.append({'a': list(a), 'b': list(b), 'delta': list(d), 'containers': [ca, cb]})
     return out, len(out), False
 
 
@@ -84,8 +89,10 @@ def run_mul(W, cfg):
     db = W.complexes('b', sb) if sb else W.cx('b')
     oa = _off(W, 'ka')
     ob = [oa[0] + cfg['delta'][0], oa[1] + cfg['delta'][1]]
-    fa = lt.field.Field(data=da, offset=oa)
-    fb = lt.field.Field(data=db, offset=ob)
+    box = {'list': list, 'tuple': tuple, 'ndarray': lambda o: W.array(list(o)) if W.sym else rnp.array(list(o))}
+    ca, cb = cfg.get('containers', ['list', 'list'])
+    fa = lt.field.Field(data=da, offset=box[ca](oa))
+    fb = lt.field.Field(data=db, offset=box[cb](ob))
     ta, tb = object(), object()
     fa.tilt, fb.tilt = [ta], [tb]
     c = fa * fb
